@@ -67,8 +67,13 @@ FinSet   == ToSet(E.fin)
 (* A threshold collection can fire in the middle of an allocating call, so an object counts as reachable for *)
 (* the verdict only if it is reachable both before and after the mutation.                                   *)
 ReachOK(oPre, edPre, sPre, tPre, oPost, edPost, sPost, tPost) ==
-  LET judged == SweptSet \ {p \in SweptSet : p \in DOMAIN boxof /\ (boxof[p] \in SweptSet \/ ~oPre[boxof[p]].live)}
-      bad == judged \cap Reachable(oPre, edPre, sPre, tPre) \cap Reachable(oPost, edPost, sPost, tPost)
+  LET (* objects that die with their owner: their Box went in this step or earlier.  They are not judged themselves, and -  *)
+      (* because one logged operation may contain several collections (allocation churn) - nothing counts as reachable     *)
+      (* merely THROUGH them: once the owner is gone they are gone, and a later collection of the same operation may      *)
+      (* rightly take what only they referred to                                                                          *)
+      exempt == {p \in SweptSet : p \in DOMAIN boxof /\ (boxof[p] \in SweptSet \/ ~oPre[boxof[p]].live)}
+      judged == SweptSet \ exempt
+      bad == judged \cap Reachable(Gone(oPre, exempt), edPre, sPre, tPre) \cap Reachable(Gone(oPost, exempt \cap DOMAIN oPost), edPost, sPost, tPost)
   IN IF bad = {} THEN TRUE ELSE PrintT(<<"REACHABLE-BUT-SWEPT", l, bad>>) /\ FALSE
 
 (* C06 *)
